@@ -15,6 +15,8 @@ from common import Check, coq_eval, impl_run, impl_run_parallel
 
 CLASSES = ["XOS", "XKey", "XRuntime"]
 STARTS = ["root", "launcher", "dropped"]
+PERSISTENT_CLASSES = ["XAgain", "XIntr", "XNoMem"]      # OSError(EAGAIN / EINTR / ENOMEM)
+PERSISTENT_SPANS = [None, 3]     # every call from k on fails / calls k..k+2 fail and then things work again
 SOCKET_CLASSES = ["XInUse", "XNotAvail", "XAccess"]     # OSError(EADDRINUSE / EADDRNOTAVAIL / EACCES) at socket calls
 ROOT, UIDV, GIDV = "/srv/gopher", "pwd.getpwnam(alice)[2]", "grp.getgrnam(staff)[2]"
 ID_CHANGERS = {"os.setgroups", "os.setregid", "os.setreuid", "os.setuid", "os.setgid", "os.seteuid", "os.setegid",
@@ -100,7 +102,10 @@ def coq_case(case):
     r = case["res"]
     f = case["fail"]
     # the errno variants of OSError are all OSError for the except clauses
-    fail = "None" if f is None else "(Some (%d%%nat, %s))" % (f[0], "XOS" if f[1] in SOCKET_CLASSES else f[1])
+    fail = "None" if f is None else "(Some (%d%%nat, %s))" % (
+        f[0], "XOS" if f[1] in SOCKET_CLASSES + PERSISTENT_CLASSES else f[1])
+    span = "(Some 1%nat)" if f is None or len(f) < 3 else ("None" if f[2] is None else "(Some %d%%nat)" % f[2])
+    fail = "(%s, %s)" % (fail, span)
     kind = {"running": 0, "abort": 1, "exited": 2}[r["kind"]]
     origin = "None" if r["origin"] is None else "(Some %d%%nat)" % r["origin"]
     tr = "[" + "; ".join("(%s, [%s])" % (cs(n), "; ".join(cs(a) for a in args)) for n, args in r["trace"]) + "]"
@@ -203,7 +208,10 @@ def oracle(case):
                 "%s = %s (configured: %s)" % b for b in bad) + " — started with real/effective/saved uid %s/%s/%s, "
                 "gid %s/%s/%s, groups %s" % tuple(s0)))
     # a failure aborts
-    if f is not None and r["failed_call"] is not None and r["failed_call"] not in BEST_EFFORT:
+    transient = f is not None and len(f) >= 3 and f[2] is not None
+    if transient and r["kind"] == "running":
+        pass    # the calls recovered after a while: judged by presence / order / final credentials above
+    elif f is not None and r["failed_call"] is not None and r["failed_call"] not in BEST_EFFORT:
         if r["kind"] != "abort":
             hits.append(("continues-after-failure:" + r["failed_call"],
                          "start-up goes on (%s) although %s raised %s" % (r["kind"], r["failed_call"], f[1])))
@@ -215,7 +223,8 @@ def oracle(case):
 
 
 def sweep(configs, parallel=True):
-    jobs = [{"op": "c19_sweep", "configs": [c], "classes": CLASSES, "socket_classes": SOCKET_CLASSES} for c in configs]
+    jobs = [{"op": "c19_sweep", "configs": [c], "classes": CLASSES, "socket_classes": SOCKET_CLASSES,
+             "persistent_classes": PERSISTENT_CLASSES} for c in configs]
     res = impl_run_parallel(jobs) if parallel else impl_run(jobs)
     cases = []
     for r in res:
@@ -236,9 +245,14 @@ def run(tier):
     # starting credentials: every configuration as root; the security-relevant ones (and init_security
     # alone) also through a set-uid-root launcher and as the already-switched account
     sec = sec_opts()
-    configs = [{"entry": "initialize", "opts": o, "starts": STARTS if (o in sec and not o.get("alt")) else ["root"]}
-               for o in all_opts()] + \
-              [{"entry": "init_security", "opts": o, "starts": STARTS} for o in sec]
+    full = mk(True, True, True, "on", True, True)
+    plain = [o for o in sec if not o.get("alt")]
+    configs = [{"entry": "initialize", "opts": o, "starts": STARTS if o in plain else ["root"]}
+               for o in all_opts() if o != full] + \
+              [{"entry": "init_security", "opts": o, "starts": STARTS} for o in sec if o not in plain] + \
+              [{"entry": "initialize", "opts": full, "starts": ["root"], "persistent_spans": PERSISTENT_SPANS}] + \
+              [{"entry": "init_security", "opts": o, "starts": ["root"], "persistent_spans": PERSISTENT_SPANS} for o in plain] + \
+              [{"entry": "init_security", "opts": o, "starts": ["launcher", "dropped"]} for o in plain]
     cases = sweep(configs)
 
     # ---------------- oracle ----------------
@@ -268,7 +282,10 @@ def run(tier):
                               pre=intern_table())
     cov["correspondence"] = {"cases": len(cases), "shards": nsh, "mismatches": len(mism), "errors": [err] if err else [],
                              "configurations_initialize": len(all_opts()), "configurations_init_security": len(sec_opts()),
-                             "failure_classes": CLASSES, "extra_classes_at_socket_calls": SOCKET_CLASSES, "exhaustive": True}
+                             "failure_classes": CLASSES, "extra_classes_at_socket_calls": SOCKET_CLASSES,
+                             "persistent_failures": {"classes": PERSISTENT_CLASSES, "spans": ["forever", 3],
+                                                     "where": "every call of init_security (18 configurations) and of the "
+                                                              "start-up with everything configured"}, "exhaustive": True}
     cov["oracle"] = {"sequences_checked": len(cases), "findings": {t: len(v) for t, v in seen_tags.items()}}
     full = [c for c in cases if c["entry"] == "initialize" and c["fail"] is None and not c["fork_parent"]
             and all(c["opts"][k] for k in ("chroot", "uid", "gid", "pid", "detach")) and c["opts"]["tls"] == "on"]
